@@ -20,7 +20,10 @@ EXPLANATION = (
     "the work of the engine the other theorems are about); (3) in every regenerated pattern except four listed ones, every "
     "alternation that a repeat can enter more than once has pairwise exclusive alternatives - from no position can two of "
     "them both consume (sound first-set analysis); the failure of this condition is the classic source of exponential "
-    "backtracking, and a new overlap breaks the sweep. The growth rate is decided by the oracle: (a) deterministic: for every "
+    "backtracking, and a new overlap breaks the sweep; (4) in every regenerated pattern except seven listed ones, no repeat that can "
+    "iterate more than once has a body that can end in an unbounded repeat of a class and begin with a character of the same class "
+    "- the shape (x+)+, where one run is cut into iterations in exponentially many ways (Proofs/RxNest.v: class disjointness "
+    "proved sound against the class semantics of the engine, C07_iterations_have_one_boundary). The growth rate is decided by the oracle: (a) deterministic: for every "
     "repeat of every pattern a structure-directed pump (prefix reaching the repeat, unit = a sample of its body or of its "
     "alternatives, failing suffix) is run on the counting model at two sizes; super-quadratic growth makes a candidate; "
     "(b) candidates, a corpus of classic shapes and sampled token pumps prefix + unit^n + suffix are converted by the real "
@@ -30,7 +33,7 @@ ASSUMPTIONS = ["quadratic budget: t(4n)/t(n) <= 40 (16 = exactly quadratic, 64 =
                "absolute budget: an input of at most 5000 characters converts within 10 s of CPU time",
                "CPU time (time.process_time) of one conversion in a warm worker; minimum of 2 runs"]
 TRUSTED = ["tools/worker.py, tools/workers.py, tools/pumpgen.py"]
-TECHNIQUE = "Coq: iteration bound, counted engine = engine, exclusive alternatives under repeats (regenerated sweep); growth by model step counts and CPU-time ratios on pumped inputs"
+TECHNIQUE = "Coq: iteration bound, counted engine = engine, exclusive alternatives under repeats and no repeat ending where it begins (regenerated sweeps); growth by model step counts and CPU-time ratios on pumped inputs"
 
 P = gen_docs.ALL_PLUGINS
 CONFIGS = [
